@@ -65,7 +65,7 @@ class C01(Prop):
         "decimal -> binary conversion",
         "|x| <= 1e18 with fixed formats so that tokens stay shorter than the drawn data_width",
     ]
-    quick = {"runs": 4000, "wall": 45}
+    quick = {"runs": 12000, "wall": 60}
     thorough = {"runs": 150000, "wall": 900}
 
     def gen(self, st, tier, index):
